@@ -233,3 +233,8 @@ Example offset_example :
     in_range (map (ceval (fun x => if Pos.eqb x 1 then 3 else 1) (fun _ _ => 0)) idx)
              (map (ceval (fun x => if Pos.eqb x 1 then 3 else 1) (fun _ _ => 0)) shape).
 Proof. do 2 eexists. cbv. repeat split; try reflexivity; discriminate. Qed.
+
+(** hypotheses of [row_major_injective] are satisfiable; distinct tuples, distinct cells *)
+Example row_major_injective_example :
+  in_range [1; 2] [3; 4] /\ in_range [2; 1] [3; 4] /\ row_major [3; 4] [1; 2] = 6 /\ row_major [3; 4] [2; 1] = 9.
+Proof. cbv. repeat split; try discriminate; reflexivity. Qed.
